@@ -81,7 +81,7 @@ def main():
             rec["status"] = "mutant does not pass the pinned suite"
             results.append(rec); print(m["name"], rec["status"], rec["pinned_tests"]); continue
         for prop in m["props"]:
-            r = sh("VERIF_SEED=%s ./check %s quick" % (os.environ.get("VERIF_SEED", "1"), prop), cwd=SVERIF)
+            r = sh("FG_DEV=1 VERIF_SEED=%s ./check %s quick" % (os.environ.get("VERIF_SEED", "1"), prop), cwd=SVERIF)
             viol = [l for l in r.stdout.splitlines() if l.startswith("VIOLATION")]
             first = [l for l in r.stdout.splitlines() if l.startswith("violation:")]
             rec["checks"][prop] = {"exit": r.returncode, "violations": len(viol), "first": (first[0][:300] if first else "")}
